@@ -3,9 +3,9 @@
 package tun
 
 import (
-	"time"
 	"strings"
 	"testing"
+	"time"
 
 	"pgregory.net/rapid"
 	"verif/harness/common"
@@ -42,6 +42,6 @@ func TestC05B(t *testing.T) {
 		}
 		return nil
 	}
-	common.Drive(t, rec, func(rt *rapid.T) *Plan { return genPlanC05(rt) }, run)
+	common.Drive(t, rec, func(rt *rapid.T) *Plan { return withEdgeChannels(rt, genPlanC05(rt)) }, run)
 	completed = true
 }
